@@ -136,6 +136,10 @@ T_SRead == /\ Is("SRead") /\ Keep
            /\ IF vopen /\ ((vsess[Ev.n] = None /\ Ev.res = "notfound") \/ (vsess[Ev.n] # None /\ Ev.res = "ok" /\ Ev.tok = vsess[Ev.n]))
               THEN TRUE
               ELSE PrintT(<<"BAD", tl, "sessionread:" \o SessionWhy(Ev), SessionModel(Ev), "">>)
+\* D: the (attributes) file, where present, records the CRC32 of every readable file (attributes maintenance is
+\* integrity metadata - C10's subject - and not part of the map the property speaks about)
+T_Attrs == /\ Is("Attrs") /\ UNCHANGED mvars /\ Keep
+           /\ IF Ev.loaded /\ Ev.bad = <<>> THEN TRUE ELSE PrintT(<<"DRIFT", tl, "attrs">>)
 T_Skip == ~Is("Reset") /\ UNCHANGED <<mvars, vreset, voptok, vskip, vhaslf>>
 
 TInit == tl = 1 /\ MapInit(<<>>, 0, 0) /\ vreset = 0 /\ voptok = <<>> /\ vskip = FALSE /\ vhaslf = FALSE
@@ -143,7 +147,7 @@ TNext == /\ tl <= Len(Rec)
          /\ tl' = tl + 1
          /\ IF vskip /\ ~Is("Reset") THEN T_Skip
             ELSE \/ T_Reset \/ T_Open \/ T_Add \/ T_Remove \/ T_Rename \/ T_Flush \/ T_Compact \/ T_Close
-                 \/ T_Check \/ T_Read \/ T_List \/ T_SRead
+                 \/ T_Check \/ T_Read \/ T_List \/ T_SRead \/ T_Attrs
          /\ StDrift
 
 Accepted == LET d == TLCGet("stats").diameter IN
